@@ -105,6 +105,10 @@ func (p *peekingReader) Read(d []byte) (int, error) {
 }
 
 func (p *peekingReader) Close() error {
+	if p == nil {
+		// HasBody stores a nil *peekingReader as the body of a request without body
+		return nil
+	}
 	if p.underlying == nil {
 		return errors.New("reader already closed")
 	}
